@@ -155,6 +155,17 @@ def build(spec, order=None, names=None, maxtime=None):
     if spec.get('ext') == 'last':
         ExternalSector(m)
     _tail(b, names)
+    if spec.get('manual_gold'):
+        # gold bought through the public InternationalGold.SetGoldPurchases() at build time by an ad-hoc sector
+        cc = spec['manual_gold']
+        gb = Sector(b.countries[cc], 'GB', has_F=True)
+        gb.AddVariable('GOLDBUY', 'gold purchases (local currency)', '3.0')
+        b.sectors[(cc, 'GB')] = gb
+        m.ExternalSector['GOLD'].SetGoldPurchases(gb, 'GOLDBUY', 5.)
+    if spec.get('late_region'):
+        # one more (empty) region joins an existing currency zone after everything else has been declared
+        code, cur = spec['late_region']
+        b.countries[code] = Region(m, code, currency=cur)
     m.MaxTime = maxtime if maxtime is not None else spec.get('horizon', 3)
     m.EquationSolver.MaxIterations = 5000
     return b
@@ -422,6 +433,8 @@ def well_formed(spec):
             return False
     if spec.get('xr') and not spec.get('ext'):
         return False
+    if spec.get('manual_gold') and spec.get('ext') not in ('first', 'mid'):
+        return False
     return True
 
 
@@ -524,6 +537,9 @@ def family_two_zones():
     devs += [_xr_dev('AA', 'xvar'), _xr_dev('BB', 'xvar'), _xr_unit('AA'), _xr_unit('BB')]
     devs.append(('ext=first', lambda s: _set(s, ext='first') if s['ext'] != 'first' else None))
     devs.append(('ext=mid', lambda s: _set(s, ext='mid') if s['ext'] != 'mid' else None))
+    devs.append(('manualgold:AA+late-region', lambda s: _set(s, ext='first', manual_gold='AA', late_region=['AR', 'AA'])
+                 if not s.get('manual_gold') else None))
+    devs.append(('manualgold:BB', lambda s: _set(s, ext='mid', manual_gold='BB') if not s.get('manual_gold') else None))
     return 'two_zones', base, devs
 
 
